@@ -395,7 +395,7 @@ def conformance(p, a, lib, out, combos, build_args, VOID):
                         if client is real and VOID(cell):
                             # a void client-streaming method returns once connected; the call itself finishes in the
                             # background (real time on a real channel): wait for the server to have read it
-                            for _ in range(400):
+                            for _ in range(4000):
                                 if seen:
                                     break
                                 await asyncio.sleep(0.005)
